@@ -24,7 +24,7 @@ def rows(prefix):
 
 def tables():
     o = []
-    for title, pre in (('Round 2', 'R'), ('Round 3', 'T'), ('Round 4', 'U'), ('Round 5', 'V'), ('Round 6', 'W'), ('Round 7', 'X'), ('Round 9', 'Z'), ('Round 10', 'Q'), ('Round 11', 'P'), ('Round 12', 'O')):
+    for title, pre in (('Round 2', 'R'), ('Round 3', 'T'), ('Round 4', 'U'), ('Round 5', 'V'), ('Round 6', 'W'), ('Round 7', 'X'), ('Round 9', 'Z'), ('Round 10', 'Q'), ('Round 11', 'P'), ('Round 12', 'O'), ('Round 13', 'N')):
         o.append('**%s**\n' % title)
         o.append('| id | property | change | what it takes to manifest | caught by the checks as they were | obligation that fails now | check result with the change applied to /repo |')
         o.append('|---|---|---|---|---|---|---|')
